@@ -25,19 +25,19 @@ impl crate::cache::Cached for StubCacher {
 }
 
 macro_rules! forward_asserts {
-    ($n:literal, $inp:expr, $s0:expr, $r:expr) => {{
+    ($c:literal, $n:literal, $inp:expr, $s0:expr, $r:expr) => {{
         let s = snap($inp);
         let a = lg($inp, 0);
         let v = unary_spec(&$s0, &s, &a, $r.is_ok(), false);
-        vassert!(v[0], concat!("C13/", $n, ".wrapped-parser-runs-exactly-once-from-the-caller-state"));
-        vassert!(v[1], concat!("C13/", $n, ".same-acceptance-as-the-wrapped-parser"));
-        vassert!(v[2], concat!("C13/", $n, ".same-consumption-as-the-wrapped-parser"));
-        vassert!(v[3], concat!("C13/", $n, ".same-emissions-as-the-wrapped-parser"));
+        vassert!(v[0], concat!($c, $n, ".wrapped-parser-runs-exactly-once-from-the-caller-state"));
+        vassert!(v[1], concat!($c, $n, ".same-acceptance-as-the-wrapped-parser"));
+        vassert!(v[2], concat!($c, $n, ".same-consumption-as-the-wrapped-parser"));
+        vassert!(v[3], concat!($c, $n, ".same-emissions-as-the-wrapped-parser"));
         vassert!(v[4], concat!("C20/", $n, ".failure-leaves-pending-error"));
-        vassert!(Offers::of(&$s0, &[&a]).matches(&s), concat!("C13/", $n, ".same-pending-error-as-the-wrapped-parser"));
+        vassert!(Offers::of(&$s0, &[&a]).matches(&s), concat!($c, $n, ".same-pending-error-as-the-wrapped-parser"));
         if a.ok {
             vcover!(true, concat!($n, ": succeeds"));
-            vassert!(ok_with::<M, _>(&$r, a.out), concat!("C13/", $n, ".same-output-as-the-wrapped-parser"));
+            vassert!(ok_with::<M, _>(&$r, a.out), concat!($c, $n, ".same-output-as-the-wrapped-parser"));
         } else {
             vcover!(true, concat!($n, ": fails"));
         }
@@ -48,17 +48,17 @@ pub fn h_wrap<M: VMode, const KIND: usize>() {
     run::<u8, VS, (), _>(|inp, s0| {
         let p: Stub = anyp::<SymIn<u8>, X<VS>>(0);
         let r = match KIND {
-            0 => (&p).go::<M>(inp),
-            1 => Box::new(p).go::<M>(inp),
-            2 => Rc::new(p).go::<M>(inp),
-            3 => Arc::new(p).go::<M>(inp),
-            4 => p.boxed().go::<M>(inp),
-            5 => p.boxed().clone().boxed().go::<M>(inp),
-            6 => either::Either::<Stub, Stub>::Left(p).go::<M>(inp),
-            7 => either::Either::<Stub, Stub>::Right(p).go::<M>(inp),
-            _ => (&&p).go::<M>(inp),
+            0 => (&p).gov::<M>(inp),
+            1 => Box::new(p).gov::<M>(inp),
+            2 => Rc::new(p).gov::<M>(inp),
+            3 => Arc::new(p).gov::<M>(inp),
+            4 => p.boxed().gov::<M>(inp),
+            5 => p.boxed().clone().boxed().gov::<M>(inp),
+            6 => either::Either::<Stub, Stub>::Left(p).gov::<M>(inp),
+            7 => either::Either::<Stub, Stub>::Right(p).gov::<M>(inp),
+            _ => (&&p).gov::<M>(inp),
         };
-        forward_asserts!("wrapper", inp, s0, r);
+        forward_asserts!("C13/", "wrapper", inp, s0, r);
     });
 }
 
@@ -67,12 +67,12 @@ pub fn h_wrap<M: VMode, const KIND: usize>() {
 pub fn h_cache<M: VMode>() {
     run::<u8, VS, (), _>(|inp, s0| {
         let cache = crate::cache::Cache::new(StubCacher);
-        let r1 = cache.get().go::<M>(inp);
+        let r1 = cache.get().gov::<M>(inp);
         let a = lg(inp, 0);
         let s1 = snap(inp);
         vassert!(a.called && a.calls == 1 && a.entry_pos == s0.pos && a.entry_sec == s0.nsec, "C13/cache.first-parse-runs-the-stored-parser-once");
         vassert!(r1.is_ok() == a.ok && ok_with::<M, _>(&r1, a.out) == a.ok, "C13/cache.first-parse-result-is-the-stored-parser-result");
-        let r2 = cache.get().go::<M>(inp);
+        let r2 = cache.get().gov::<M>(inp);
         let b = lg(inp, 1);
         vcover!(a.ok && b.ok, "cache: two successful parses");
         vassert!(b.called && b.calls == 1 && b.entry_pos == s1.pos && b.entry_sec == s1.nsec, "C13/cache.second-parse-is-a-fresh-run-of-the-stored-parser");
@@ -98,8 +98,30 @@ pub fn h_recursive_indirect<M: VMode>() {
         vassert!(defined, "C12/recursive.first-definition-is-accepted");
         let handle = rec.clone();
         drop(rec);
-        let r = handle.go::<M>(inp);
-        forward_asserts!("recursive_declared", inp, s0, r);
+        let r = handle.gov::<M>(inp);
+        forward_asserts!("C12/", "recursive_declared", inp, s0, r);
+    });
+}
+/// Mutually recursive declarations: `a` is defined first and holds a clone of `b` taken *before* `b` is
+/// defined; `b`'s original handle is dropped once both are defined. A clone is as good as the original
+/// ("may be cloned, boxed and dropped freely once defined"), so `a` still reaches `b`'s definition.
+pub fn h_recursive_mutual<M: VMode>() {
+    run::<u8, VS, (), _>(|inp, s0| {
+        let mut a = Recursive::declare();
+        let mut b = Recursive::declare();
+        let b_early = b.clone();
+        #[cfg(kani)]
+        let defined = a.verif_try_define(b_early).is_ok() && b.verif_try_define(anyp::<SymIn<u8>, X<VS>>(0)).is_ok();
+        #[cfg(not(kani))]
+        let defined = {
+            a.define(b_early);
+            b.define(anyp::<SymIn<u8>, X<VS>>(0));
+            true
+        };
+        vassert!(defined, "C12/recursive.first-definition-is-accepted");
+        drop(b);
+        let r = a.gov::<M>(inp);
+        forward_asserts!("C12/", "recursive_mutual", inp, s0, r);
     });
 }
 /// recursive(|this| definition): the parser behaves as its definition (self-reference unused here).
@@ -111,8 +133,8 @@ pub fn h_recursive_direct<M: VMode>() {
         });
         let handle = rec.clone();
         drop(rec);
-        let r = handle.go::<M>(inp);
-        forward_asserts!("recursive", inp, s0, r);
+        let r = handle.gov::<M>(inp);
+        forward_asserts!("C12/", "recursive", inp, s0, r);
     });
 }
 /// recursive(|this| a.then(this.or_not())): one level of unrolling when the inner `a` fails on the
@@ -123,7 +145,7 @@ pub fn h_recursive_unroll<M: VMode>() {
         a.bounded = true;
         a.progress = true;
         let rec = recursive(|this| a.then(this.or_not()).map(|(x, rest): (u16, Option<u16>)| x.wrapping_mul(31).wrapping_add(rest.unwrap_or(7))));
-        let r = rec.go::<M>(inp);
+        let r = rec.gov::<M>(inp);
         let s = snap(inp);
         let (a0, a1) = (lg(inp, 0), lg(inp, 1));
         vassert!(a0.called && a0.entry_pos == s0.pos, "C12/recursive.definition-runs-from-entry");
@@ -155,7 +177,7 @@ pub fn h_define_twice<M: VMode>() {
         vcover!(true, "recursive: defined twice");
         vassert!(first, "C12/recursive.first-definition-is-accepted");
         vassert!(!second, "C12/recursive.second-definition-is-refused");
-        let r = rec.go::<M>(inp);
+        let r = rec.gov::<M>(inp);
         let (a, b) = (lg(inp, 0), lg(inp, 1));
         vassert!(a.called && !b.called && r.is_ok() == a.ok, "C12/recursive.first-definition-stays-in-force");
         let _ = s0;
@@ -182,7 +204,7 @@ impl ExtParser<'static, SymIn<u8>, u16, X<VS>> for ExtStub {
 }
 pub fn h_ext<M: VMode>() {
     run::<u8, VS, (), _>(|inp, s0| {
-        let r = Ext(ExtStub).go::<M>(inp);
+        let r = Ext(ExtStub).gov::<M>(inp);
         let s = snap(inp);
         let ok = inp.state.flag[0];
         vassert!(inp.state.reg[1] == 1, "C04/ext.user-parser-runs-exactly-once-in-every-mode");
@@ -214,6 +236,7 @@ harnesses! {
     cache_check = h_cache::<Check>;
     recursive_indirect_emit = h_recursive_indirect::<Emit>;
     recursive_indirect_check = h_recursive_indirect::<Check>;
+    recursive_mutual_emit = h_recursive_mutual::<Emit>;
     recursive_direct_emit = h_recursive_direct::<Emit>;
     recursive_direct_check = h_recursive_direct::<Check>;
     #[kani::unwind(4)]
